@@ -1,5 +1,6 @@
 mod gen;
 mod ops;
+mod sweep;
 mod util;
 
 use gen::*;
@@ -263,6 +264,15 @@ fn main() {
             let mut w = BufWriter::new(out.lock());
             let mut o = Out { w: &mut w, thorough, rng: Rng::new(seed) };
             plan(prop, &mut o);
+        }
+        Some("sweep") => {
+            let p = sweep::Plan {
+                prop: args[2].clone(),
+                thorough: args.get(3).map_or(false, |t| t == "thorough"),
+                seed: args.get(4).and_then(|s| s.parse().ok()).unwrap_or(1),
+            };
+            std::panic::set_hook(Box::new(|_| {}));
+            sweep::run(&p);
         }
         Some("caps") => {
             for ty in TYPES {
